@@ -116,7 +116,8 @@ def program(seed, variant, layout=0):
         for p_ in m_.parameters(): add(p_.data)
     nn.init.kaiming_uniform_(model.submodules()[0].weight)
     nn.init.xavier_normal_(model.submodules()[-1].weight)
-    opt = (optim.Adam if variant % 2 else optim.SGD)(model.parameters(), lr=0.05)
+    # (stateful optimizers: whatever state one optimizer object builds up must not reach the next object constructed in the process)
+    opt = optim.Adam(model.parameters(), lr=0.05) if variant % 2 else optim.SGD(model.parameters(), lr=0.05, momentum=0.9, nesterov=bool(variant % 4))
     crit = nn.CrossEntropyLoss()
     for step in range(3):
         xb = sg.Tensor(Xtr[step * 4:(step + 1) * 4 + 2]); yb = sg.Tensor(ytr[step * 4:(step + 1) * 4 + 2].astype(np.int8), dtype=np.int8)
